@@ -23,4 +23,7 @@ def fill(register, E1):
     register("C18",
              "(a) DisjointSetUnion: ONE union/find/is_same_set from an ARBITRARY valid state (every parent-pointer forest on n<=4/5 elements, ranks symbolic integers constrained only by the representation invariant) re-establishes the invariant and updates the partition exactly as the merge of two classes - an inductive step that covers histories of any length - plus every history of <=3-4 operations from __init__. (b) is_single_root / has_cyclic / is_sorted / is_bifurcate on EVERY function {0..n-1} -> {none}+{0..n-1} (forests, cycles, self-loops; n<=4 quick / 5 thorough; id bases 0/1/5) against naive graph search. (c) mark_roots_as_somas / link_roots_to_nearest / reset_index and read_swc(fix_roots=off|somas|nearest) on every forest with >=2 roots, with symbolic real coordinates for the nearest-node choice (decided by z3 over sqrt distances).",
              NOTE + "; general position assumed for 'nearest'; has_cyclic/is_sorted on their documented domain", E1, "5/C18")
+    register("C19",
+             "ChainTrees/LazyLoadingTrees/NestTrees/Population/Populations/PopulationTransform are executed with the index key a SYMBOLIC integer (in [-L-2, L+1]) and member lengths 0..3 forked, so the binary search over the prefix sums and the negative-index arithmetic are decided by z3 for every key, from list- and generator-built chains; Population.from_swc / Populations.from_swc run on every fake directory layout of a palette (nested, empty, differing file sets, differing enumeration order) followed by every history of 2-3 operations (index, slice, iterate, map, len), with a load recorder proving each file is loaded at most once and only on demand.",
+             "os.walk/os.path.exists, Tree.from_swc and ProcessPoolExecutor inside swcgeom.core.population are stubs (fake listing, load recorder, sequential pool); real file systems / process pools / load failures outside the claim; z3 5.1 trusted; counterexamples replayed on the real code", E1, "5/C19")
 
